@@ -222,12 +222,12 @@ def run(ctx):
     ctx.control("C08.R3", t2.val(ps[0].retval[3][2]) != P0(STREAM))
 
 
-def null_terminated(ctx, fi, paths):
+def null_terminated(ctx, fi, paths, rule="C08.R2"):
     term = N.selfattr("term")
     unit = ("call", ("free", "len"), (term,), ())
     inc, con, req = N.selfattr("include"), N.selfattr("consume"), N.selfattr("require")
     reads = uniq_events(paths, "READ")
-    ctx.ob("C08.R2", fi, bool(reads) and all(e["length"] == unit and e["stream"] == STREAM for e in reads), "NullTerminated reads the outer stream in steps of exactly len(term)", key="NT unit")
+    ctx.ob(rule, fi, bool(reads) and all(e["length"] == unit and e["stream"] == STREAM for e in reads), "NullTerminated reads the outer stream in steps of exactly len(term)", key="NT unit")
     seen = set()
     for p in paths:
         g = p.guards()
@@ -239,19 +239,19 @@ def null_terminated(ctx, fi, paths):
             data = new[0]["args"][0] if new and new[0]["args"] else None
             has_term = data is not None and N.contains(data, rd)
             i = inc in g
-            ctx.ob("C08.R2", fi, (inc in g or N.mk_not(inc) in g) and has_term == i, "the terminator is part of the region data exactly when include is set (include=%s, in data=%s)" % (i, has_term), key="NT include=%s" % i)
+            ctx.ob(rule, fi, (inc in g or N.mk_not(inc) in g) and has_term == i, "the terminator is part of the region data exactly when include is set (include=%s, in data=%s)" % (i, has_term), key="NT include=%s" % i)
             seeks = [e for e in p.events if e.kind == "SEEK" and e["stream"] == STREAM]
             c = con in g
             ok = (con in g or N.mk_not(con) in g) and ((not c and len(seeks) == 1 and seeks[0]["offset"] == N.mk_neg(unit) and seeks[0]["whence"] == N.const(1)) or (c and not seeks))
-            ctx.ob("C08.R2", fi, ok, "the stream steps back by len(term) exactly when consume is not set (consume=%s)" % c, key="NT consume=%s" % c)
+            ctx.ob(rule, fi, ok, "the stream steps back by len(term) exactly when consume is not set (consume=%s)" % c, key="NT consume=%s" % c)
             seen.add(("found", i, c))
         raised = [e for e in p.events if e.kind == "READ" and e.raised]
         if raised and any(e.kind == "CATCH" for e in p.events):
             if req in g:
                 seen.add("eof-require")
-                ctx.ob("C08.R2", fi, p.outcome[0] == "raise" and p.outcome[1].get("reraised"), "a missing terminator is re-raised when require is set", key="NT require")
+                ctx.ob(rule, fi, p.outcome[0] == "raise" and p.outcome[1].get("reraised"), "a missing terminator is re-raised when require is set", key="NT require")
             elif N.mk_not(req) in g:
                 seen.add("eof-lenient")
-                ctx.ob("C08.R2", fi, p.returns, "without require, end of stream ends the region", key="NT not require")
-    ctx.ob("C08.R2", fi, len([s for s in seen if isinstance(s, tuple)]) == 4 and "eof-require" in seen and "eof-lenient" in seen,
+                ctx.ob(rule, fi, p.returns, "without require, end of stream ends the region", key="NT not require")
+    ctx.ob(rule, fi, len([s for s in seen if isinstance(s, tuple)]) == 4 and "eof-require" in seen and "eof-lenient" in seen,
            "all include/consume combinations and both EOF policies were analysed (%s)" % sorted(map(str, seen)), key="NT coverage")
